@@ -3,7 +3,7 @@ CONSTANTS
   Scenario = "small"
   MaxOps = 4
   CompSet = {"none", "static", "tree", "hash"}
-  TgtSet = {"array", "stream"}
+  TgtSet = {"array", "stream", "sarray"}
 SPECIFICATION Spec
 INVARIANT ParseBack
 INVARIANT CountsMatch
